@@ -51,7 +51,7 @@ BUDGET = {'quick': 12, 'thorough': 240}
 # (>= 2x below a run on a machine with load average 80 on 16 cores)
 FLOORS = {
     'quick': {'mini:match-approx': 12824, 'mini:match-exact': 21756, 'mini:index-sweep': 3690,
-              'directed:wildcard': 1680, 'directed:folding': 30, 'fn:match': 70000, 'match:mt=1': 6412, 'match:mt=-1': 6412,
+              'directed:wildcard': 1680, 'directed:folding': 30, 'directed:long-vector': 150, 'fn:match': 70000, 'match:mt=1': 6412, 'match:mt=-1': 6412,
               'match:mt=0': 22596, 'scenarios': 500,
               'fn:vlookup': 20000, 'fn:hlookup': 20000, 'fn:lookup': 500, 'fn:index': 2000,
               'via-workbook': 1000, 'firm': 60000,
@@ -62,7 +62,7 @@ FLOORS = {
               'wild:pattern': 1200, 'idx:too-large': 5000, 'idx:zero': 2500, 'idx:negative': 2500,
               'idx:in-range': 10000},
     'thorough': {'mini:match-approx': 12824, 'mini:match-exact': 21756, 'mini:index-sweep': 3690,
-                 'directed:wildcard': 1680, 'directed:folding': 30, 'fn:match': 400000, 'fn:vlookup': 300000, 'fn:hlookup': 300000,
+                 'directed:wildcard': 1680, 'directed:folding': 30, 'directed:long-vector': 150, 'fn:match': 400000, 'fn:vlookup': 300000, 'fn:hlookup': 300000,
                  'fn:lookup': 10000, 'fn:index': 30000, 'via-workbook': 15000, 'firm': 1000000,
                  'law:vlookup=index(match)': 150000, 'law:hlookup=index(match)': 150000,
                  'law:vlookup=hlookup(transpose)': 300000, 'law:lookup=index(match)': 8000,
@@ -805,6 +805,31 @@ def directed_folding(ctx):
             ctx.count('directed:folding')
 
 
+def long_vectors(ctx):
+    """vectors of 101 to 400 entries (the other workloads stay below 10): a logical above the first equal number, one
+    text in several spellings, a numeric text next to its number - the first position that is equal in Excel's sense"""
+    i = 0
+    for n in (101, 150, 257, 400):
+        vec = [True, False, '1', 'Widget'] + [k % 60 + 2 for k in range(n - 12)] + [1, 0, 'widget', 1.0, 'WIDGET', '57', 57.5, 'b?d']
+        for v in (1, 0, 1.0, 0.0, True, False, 'widget', 'WIDGET', 'Widget', 'wIdGeT', 57, '57', '1', 61, 3, 57.5, 'w?dget', 'b~?d', 'zz'):
+            i += 1
+            if not ctx.mine(i):
+                continue
+            check_case(ctx, {'kind': 'match', 'v': v, 'a': vec, 'mt': 0, 'wb': i % 9 == 0, 'inline': False})
+            ctx.count('directed:long-vector')
+            t = [[k, f'r{r}'] for r, k in enumerate(vec, 1)]
+            check_case(ctx, {'kind': 'vh', 'v': v, 't': t, 'idx': 2, 'rl': False, 'wb': i % 19 == 0})
+            ctx.count('directed:long-vector')
+    # sorted data of that length under the approximate match types
+    asc = [k * 3 for k in range(1, 301)]
+    for v in (3, 4, 299, 300, 450, 899, 900, 901, 2, 1e6):
+        i += 1
+        if ctx.mine(i):
+            check_case(ctx, {'kind': 'match', 'v': v, 'a': asc, 'mt': 1, 'wb': False, 'inline': False})
+            check_case(ctx, {'kind': 'match', 'v': v, 'a': list(reversed(asc)), 'mt': -1, 'wb': False, 'inline': False})
+            ctx.count('directed:long-vector', 2)
+
+
 # ----------------------------------------------------------------------------- seeded scenarios
 
 WB_RATE = 0.02
@@ -930,6 +955,7 @@ def run(ctx):
     index_sweep(ctx)
     directed_wildcards(ctx)
     directed_folding(ctx)
+    long_vectors(ctx)
     rng = ctx.rng
     while not ctx.out_of_time():
         x = rng.random()
